@@ -8,6 +8,7 @@ RULE = ("random primitive-level scripts (length <= 7; request n, take_u8, take_o
         "first/middle/last in definite, indefinite, nested and captured parents, 3 modes, over slice/bytes/stingy/chunked sources; the "
         "observation log, the enclosing result and the decoding of the following sibling are compared with the model and with an "
         "independent window oracle computed by the generator (a cursor over the content alone). non-trivial = script accepted.")
+CROSS = {'C10': 3000, 'C02': 2000, 'C11': 1500, 'C07': 2500}   # cross streams: samples of neighbouring properties' request streams (outcomes, model <-> implementation)
 EXHAUSTIVE = {"quick": False, "thorough": False}
 EXHAUSTIVE_NOTE = {"quick": "", "thorough": ""}
 ASSUMPTIONS = ["caller scripts stay within the Source contract by construction (advance k <= last capped grant); documented misuse panics are excluded"]
